@@ -16,9 +16,19 @@
      (C) for small traces (at most `search_limit` calls): existence of a linearisation - a total order of the calls,
          consistent with real time, whose one-at-a-time execution on "value := value + d / read / value := 0" returns
          exactly the values the implementation returned (search over all candidate orders).
-   Amounts are compared exactly: integers as Z; floats are decoded to multiples of 2^-20 below 2^31 (the generator's
-   pool), for which binary64 addition is exact and order independent; a float that does not decode disables (A) for that
-   trace ((B) then compares with the float order, (C) uses binary64 arithmetic).  Any panic / hang marker fails. *)
+   Amounts are compared exactly: integers as Z; a finite float m * 2^e is decoded to the integer m * 2^(e + 1074) (every
+   finite binary64 is a multiple of 2^-1074, subnormals and amounts far below f64::EPSILON included).  Check (A) needs the
+   binary64 sums to be exact and order independent; that holds when all amounts of the trace fit one 53-bit window
+   (`exact_window`: bit length of the sum of all amounts minus the lowest set bit of any amount <= 53), which the generator's
+   pools satisfy (distinct powers of two within 2^27 of each other, tiny-only and subnormal-only pools, a single arbitrary amount);
+   otherwise (A) is skipped for that trace ((B) compares with the float order, (C) uses binary64 arithmetic).
+   Any panic / hang marker fails.
+
+   Counter-vector children (`spec_c01_vec`, traces of `C vec` scenarios with calls with_label_values(k).inc_by(d) and collect):
+   every completed collection lists no label tuple twice and shows, for every label tuple k, the sum of the increments on k that
+   returned before the collection was invoked plus the sum of SOME subset of the increments on k that overlap it (a tuple that
+   is not listed counts as 0).  So a collection after all threads finished shows exactly the sum of ALL completed increments
+   per tuple, and an increment made through a child that the vector lost is a failing input. *)
 Require Import PV.Base.Prelude PV.Base.F64 PV.Model.Conc.
 From Coq Require Import ZArith Lia.
 Open Scope Z_scope.
@@ -50,19 +60,26 @@ Definition invoked_after_return (a b : crec) : bool :=   (* a was invoked after 
   match c_res b with Some rb => Nat.ltb rb (c_inv a) | None => false end.
 
 (* ------------------------------------------------------------------ exact amounts *)
-Definition scale : Z := 20.
+Definition scale : Z := 1074.
 Definition qfloat (b : N) : option Z :=
   match Prim2SF (bits2f b) with
   | S754_zero _ => Some 0
   | S754_finite s m e =>
       let k := e + scale in
-      let v := if 0 <=? k then Some (Zpos m * 2 ^ k)
-               else if (Zpos m) mod 2 ^ (- k) =? 0 then Some (Zpos m / 2 ^ (- k)) else None in
-      match v with
-      | Some q => if q <? 2 ^ 51 then Some (if s then - q else q) else None
-      | None => None
-      end
+      if 0 <=? k then let q := Zpos m * 2 ^ k in Some (if s then - q else q) else None
   | _ => None
+  end.
+(* all subset sums of the amounts qs are exactly representable: they are multiples of the lowest set bit of any amount
+   and smaller than 2^53 times it *)
+Definition low_bit (q : Z) : Z := Z.log2 (Z.land (Z.abs q) (- Z.abs q)).
+Definition exact_window (qs : list Z) : bool :=
+  let nz := filter (fun q => negb (q =? 0)) qs in
+  match nz with
+  | [] => true
+  | q0 :: _ =>
+      let lo := fold_left (fun a q => Z.min a (low_bit q)) nz (low_bit q0) in
+      let tot := fold_left (fun a q => a + Z.abs q) nz 0 in
+      Z.log2 tot + 1 - lo <=? 53
   end.
 Definition qdec (isf : bool) (b : N) : option Z := if isf then qfloat b else Some (Z.of_N b).
 Definition qone (isf : bool) : Z := if isf then 2 ^ scale else 1.
@@ -81,7 +98,8 @@ Definition is_get (c : call) : bool := match c with CGet => true | _ => false en
 Definition amount_or0 (isf : bool) (c : crec) : Z :=
   match inc_amount isf (c_call c) with Some (Some q) => q | _ => 0 end.
 Definition all_decode (isf : bool) (cs : list crec) : bool :=
-  forallb (fun c => match inc_amount isf (c_call c) with Some None => false | _ => true end) cs.
+  forallb (fun c => match inc_amount isf (c_call c) with Some None => false | _ => true end) cs
+  && (if isf then exact_window (map (amount_or0 isf) cs) else true).
 
 (* is x = base + sum of some subset of l ? *)
 Fixpoint subset_sum (l : list Z) (base x : Z) : bool :=
@@ -196,3 +214,49 @@ Definition spec_c01 (isf : bool) (es : list event) : bool :=
         (if isf then lin_search f64 ctr_step_float same_float (Datatypes.S (length cs)) cs 0%float
          else lin_search N ctr_step_int N.eqb (Datatypes.S (length cs)) cs 0%N)
       else true).
+
+(* ------------------------------------------------------------------ counters reached as children of a counter vector *)
+Fixpoint key_eqb (a b : list str) : bool :=
+  match a, b with
+  | [], [] => true
+  | x :: a', y :: b' => str_eqb x y && key_eqb a' b'
+  | _, _ => false
+  end.
+Fixpoint key_lookup (k : list str) (l : list (list str * N)) : option N :=
+  match l with [] => None | (k', v) :: r => if key_eqb k k' then Some v else key_lookup k r end.
+Fixpoint key_mem (k : list str) (l : list (list str)) : bool :=
+  match l with [] => false | k' :: r => key_eqb k k' || key_mem k r end.
+Fixpoint key_nodup (l : list (list str)) : bool :=
+  match l with [] => true | k :: r => negb (key_mem k r) && key_nodup r end.
+Definition vec_call (c : call) : bool := match c with CWithInc _ _ | CVCollect => true | _ => false end.
+Definition winc_on (k : list str) (c : crec) : bool :=
+  match c_call c, c_ret c with
+  | CWithInc k' _, RUnit => key_eqb k k'      (* RErr: wrong number of label values, nothing was incremented *)
+  | _, _ => false
+  end.
+Definition winc_amount (c : crec) : Z := match c_call c with CWithInc _ d => Z.of_N d | _ => 0 end.
+Definition trace_keys (cs : list crec) : list (list str) :=
+  flat_map (fun c => match c_call c, c_ret c with
+                     | CWithInc k _, _ => [k]
+                     | CVCollect, RColl l => map fst l
+                     | _, _ => []
+                     end) cs.
+Definition collection_ok (cs : list crec) (g : crec) : bool :=
+  match c_res g, c_ret g with
+  | Some _, RColl l =>
+      key_nodup (map fst l)
+      && forallb (fun k =>
+           let x := match key_lookup k l with Some v => Z.of_N v | None => 0 end in
+           let incs := filter (winc_on k) cs in
+           let sure := filter (fun c => returned_before c g) incs in
+           let maybe := filter (fun c => negb (returned_before c g) && negb (invoked_after_return c g)) incs in
+           subset_sum (map winc_amount maybe) (fold_left Z.add (map winc_amount sure) 0) x) (trace_keys cs)
+  | Some _, _ => false
+  | None, _ => true
+  end.
+Definition is_vcollect (c : call) : bool := match c with CVCollect => true | _ => false end.
+Definition spec_c01_vec (es : list event) : bool :=
+  let '(cs, ok) := calls_of es O [] in
+  ok && (if forallb (fun c => vec_call (c_call c)) cs
+         then forallb (fun g => if is_vcollect (c_call g) then collection_ok cs g else true) cs
+         else true).
